@@ -72,7 +72,7 @@ CLAIMED = {
     'C03': dict(
         text='UNBOUNDED on a fragment: for every tree - any size, any depth - of one-line plain paragraphs, fenced code blocks (` or ~, any length, any content), block quotes and single-item lists (all markers, padding 1-4; '
              'siblings separated by a blank line, two lists never adjacent siblings) the block tokenizer of the model returns on the spelled text exactly the pre-token tree '
-             'written from the tree (kinds, nesting, start lines, list attributes, loose flags), and Document(lines) - whose depth fuel is proved sufficient for the fragment - holds exactly the token tree written from the tree for every renderer\'s token sets; the proof composes the quote law, the list law, blank-line independence '
+             'written from the tree (kinds, nesting, start lines, list attributes, loose flags), and Document(lines) - whose depth fuel is proved sufficient for the fragment - holds exactly the token tree written from the tree for every renderer\'s token sets, and the HTML renderer model writes for it exactly the HTML written directly from the tree (CommonMark layout, tight items without <p>, escaped text), also for the text given as one string; the proof composes the quote law, the list law, blank-line independence '
              'and the plain-line theorem. Beyond the fragment: kernel-checked on a finite family stated in the theorem (314 one-block trees with containers nested two deep '
              'x 48 spellings, 4356 two-block trees x 6 spellings: fences, headings, breaks, tight lists) that the pipeline model renders the spelled text to exactly '
              'the HTML written from the tree; the full grammar (inlines, ordered/loose lists, tables, HTML blocks, definitions, lazy lines, indents, depth 4) is decided '
